@@ -243,7 +243,10 @@ func (w *World) same(exp vals.Val, got interface{}) bool {
 	if exp.Exact {
 		return vals.Eq(exp.V, got)
 	}
-	return vals.Close(exp.V, got, 8)
+	if vals.Close(exp.V, got, 8) {
+		return true
+	}
+	return exp.Tol > 0 && vals.Within(exp.V, got, exp.Tol)
 }
 
 func prod(s []int) int {
